@@ -316,8 +316,17 @@ Associate(P, u, s, S) ==
 \* generators guarantee this) copy-in/copy-out is indistinguishable from association by reference.
 \* Internal procedures (host # "") additionally see the caller's variables (host association);
 \* host variables they define are copied back.
+\* decls carrying "xdims" <<<<lo, hi>>>> (C34/C39): bounds are expressions evaluated on entry (lo none = 1;
+\* hi [k |-> "assumed"] = assumed shape, dummies only); "dims" then only gives the rank
+HasX(d) == "xdims" \in DOMAIN d
+XLb(P, d, i, env) == IF IsNone(d.xdims[i][1]) THEN I(1) ELSE EvalE(P, d.xdims[i][1], env, <<>>)
 InitLocal(P, d, env) ==
-  IF Len(d.dims) > 0
+  IF HasX(d)
+  THEN LET lo == TLCEval([i \in 1..Len(d.xdims) |-> XLb(P, d, i, env)])
+           hi == TLCEval([i \in 1..Len(d.xdims) |-> EvalE(P, d.xdims[i][2], env, <<>>)])
+       IN IF \E i \in 1..Len(d.xdims) : lo[i].t # "int" \/ hi[i].t # "int" THEN Err("dims")
+          ELSE MkArr([i \in 1..Len(lo) |-> lo[i].v], [i \in 1..Len(hi) |-> hi[i].v], Undef)
+  ELSE IF Len(d.dims) > 0
   THEN MkArr([i \in 1..Len(d.dims) |-> d.dims[i][1]], [i \in 1..Len(d.dims) |-> d.dims[i][2]],
              IF IsNone(d.init) THEN Undef ELSE Conv(d.type, EvalE(P, d.init, env, <<>>)))
   ELSE IF IsNone(d.init) THEN Undef ELSE Conv(d.type, EvalE(P, d.init, env, <<>>))
@@ -334,9 +343,52 @@ CallUnit(P, cal, actuals, S) ==
          ELSE EvalE(P, a, S.env, <<>>)
       hostenv == IF cal.host # "" THEN S.env ELSE [n \in {} |-> Undef]
       own == DeclNames(cal)
+      \* ---- array dummies declared with "xdims" (explicit shape with expression bounds / assumed shape): the dummy is
+      \* associated with a sequence of elements of the actual's base array: the whole array, an array section, or
+      \* (sequence association) the elements from an element actual to the end of the array, in array element order
+      senv == TLCEval([m \in {cal.args[i] : i \in {j \in 1..Len(cal.args) : Len(Decl(cal, cal.args[j]).dims) = 0}} |->
+                         actualval(argidx(m))])
+      XBind(i) ==
+        LET a == actuals[i]
+            d == Decl(cal, cal.args[i])
+            rank == Len(d.xdims)
+            bad == [ok |-> FALSE]
+        IN IF a.k \notin {"var", "arr"} \/ a.name \notin DOMAIN S.env THEN bad
+           ELSE IF S.env[a.name].t # "arr" THEN bad
+           ELSE
+           LET base == S.env[a.name]
+               order == ColMajor(base.lb, base.ub, Len(base.lb))
+               issec == a.k = "arr" /\ \E j \in 1..Len(a.c) : a.c[j].k = "range"
+               shape == IF a.k = "var" THEN [j \in 1..Len(base.lb) |-> base.ub[j] - base.lb[j] + 1]
+                        ELSE IF issec THEN SecShape(P, base, a.c, S.env, 1) ELSE <<>>
+               ixs == IF a.k = "var" THEN order
+                      ELSE IF issec
+                      THEN LET pos == ColMajor([j \in 1..Len(shape) |-> 1], shape, Len(shape))
+                           IN TLCEval([k \in 1..Len(pos) |-> SubIdx(P, base, a.c, S.env, pos[k], 1, 1).ix])
+                      ELSE LET r == SubIdx(P, base, a.c, S.env, <<>>, 1, 1) IN
+                           IF ~r.ok THEN <<>> ELSE IF ~InBounds(base, r.ix) THEN <<>>
+                           ELSE SubSeq(order, CHOOSE k \in 1..Len(order) : order[k] = r.ix, Len(order))
+               assumed == \E j \in 1..rank : d.xdims[j][2].k = "assumed"
+               lo == TLCEval([j \in 1..rank |-> XLb(P, d, j, senv)])
+               hi == TLCEval([j \in 1..rank |-> IF assumed THEN I(0) ELSE EvalE(P, d.xdims[j][2], senv, <<>>)])
+           IN IF \E j \in 1..rank : lo[j].t # "int" \/ hi[j].t # "int" THEN bad
+              ELSE IF assumed /\ (Len(shape) # rank \/ ~(a.k = "var" \/ issec)) THEN bad
+              ELSE IF \E k \in 1..Len(ixs) : ~InBounds(base, ixs[k]) THEN bad
+              ELSE LET lb == [j \in 1..rank |-> lo[j].v]
+                       ub == [j \in 1..rank |-> IF assumed THEN lo[j].v + shape[j] - 1 ELSE hi[j].v]
+                       dorder == ColMajor(lb, ub, rank)
+                   IN IF Len(dorder) > Len(ixs) THEN bad
+                      ELSE [ok |-> TRUE, lb |-> lb, ub |-> ub, base |-> a.name, dorder |-> dorder, ixs |-> SubSeq(ixs, 1, Len(dorder))]
+      xb == TLCEval([i \in {j \in 1..Len(cal.args) : HasX(Decl(cal, cal.args[j]))} |-> XBind(i)])
+      XVal(i) == IF ~xb[i].ok THEN Err("array-association")
+                 ELSE LET b == xb[i] IN
+                      [t |-> "arr", lb |-> b.lb, ub |-> b.ub,
+                       data |-> TLCEval([ix \in IdxSet(b.lb, b.ub, 1) |->
+                                   S.env[b.base].data[b.ixs[CHOOSE k \in 1..Len(b.dorder) : b.dorder[k] = ix]]])]
       env0 == TLCEval([n \in own \cup DOMAIN hostenv |->
                  IF n \in own
-                 THEN (IF isarg(n)
+                 THEN (IF isarg(n) /\ HasX(Decl(cal, n)) THEN XVal(argidx(n))
+                       ELSE IF isarg(n)
                        THEN LET v == actualval(argidx(n))
                                 d == Decl(cal, n)
                             IN IF v.t = "arr"
@@ -361,7 +413,7 @@ CallUnit(P, cal, actuals, S) ==
   LET \* copy-out: every actual that is a variable / element reference and whose dummy may be defined
       back1 == TLCEval([n \in DOMAIN S.env |->
                   LET writers == {i \in 1..Len(actuals) : actuals[i].k = "var" /\ actuals[i].name = n
-                                                          /\ Decl(cal, cal.args[i]).intent # "in"}
+                                                          /\ Decl(cal, cal.args[i]).intent # "in" /\ ~HasX(Decl(cal, cal.args[i]))}
                   IN IF writers # {}
                      THEN LET i == CHOOSE j \in writers : TRUE
                               v == R.env[cal.args[i]]
@@ -381,7 +433,20 @@ CallUnit(P, cal, actuals, S) ==
                  a == actuals[i]
                  r == SubIdx(P, S.env[a.name], a.c, S.env, <<>>, 1, 1)
              IN PutBack([env EXCEPT ![a.name].data[r.ix] = R.env[cal.args[i]]], todo \ {i})
-  IN [st |-> "ok", why |-> "", env |-> PutBack(back1, elemw), out |-> R.out,
+      \* "xdims" array dummies that may be defined: element-wise copy back into the associated elements
+      xw == {i \in DOMAIN xb : Decl(cal, cal.args[i]).intent # "in"}
+      RECURSIVE PutBackX(_, _)
+      PutBackX(env, todo) ==
+        IF todo = {} THEN env
+        ELSE LET i == CHOOSE j \in todo : TRUE
+                 b == xb[i]
+                 dv == R.env[cal.args[i]]
+                 old == env[b.base].data
+                 new == TLCEval([ix \in DOMAIN old |->
+                            IF \E k \in 1..Len(b.ixs) : b.ixs[k] = ix
+                            THEN dv.data[b.dorder[CHOOSE k \in 1..Len(b.ixs) : b.ixs[k] = ix]] ELSE old[ix]])
+             IN PutBackX([env EXCEPT ![b.base].data = new], todo \ {i})
+  IN [st |-> "ok", why |-> "", env |-> PutBackX(PutBack(back1, elemw), xw), out |-> R.out,
       ret |-> IF cal.kind = "function" THEN R.env[cal.result] ELSE Undef]
 
 (* ------------------------------------------------------------ whole programs *)
